@@ -12,6 +12,7 @@ type runStats struct {
 	MaxStepRatio float64
 	Samples      []*Scenario
 	Failures     []*Scenario
+	Outcome      uint64 // digest of the event log of the last evaluation
 	SchedDigests map[uint64]struct{}
 	Triples      map[[3]uint32]struct{}
 }
